@@ -477,7 +477,7 @@ func (s *Server) setReturnNodes(r *krpc.Return, queryMsg krpc.Msg, querySource A
 		r.Nodes = s.makeReturnNodes(target, func(na krpc.NodeAddr) bool { return na.IP.To4() != nil })
 	}
 	if shouldReturnNodes6(queryMsg.A.Want, querySource.IP()) {
-		r.Nodes6 = s.makeReturnNodes(target, func(krpc.NodeAddr) bool { return true })
+		r.Nodes6 = s.makeReturnNodes(target, func(na krpc.NodeAddr) bool { return na.IP.To4() == nil })
 	}
 	return nil
 }
